@@ -209,7 +209,13 @@ fn run(ctx: &mut Ctx, idx: u64) {
   let mut prof = Profile::core(cbor);
   prof.max_depth = 3;
   let mix = rng.bool();
-  let g = {
+  // cases 8, 9 of every ten take the next schema of the hand-written interaction corpus (JSON / CBOR)
+  let trees = crate::corpus::trees_for(cbor);
+  let from_corpus = idx % 10 >= 8 && !trees.is_empty();
+  let g = if from_corpus {
+    ctx.count("schemas_from_corpus");
+    trees[(idx / 10) as usize % trees.len()].clone()
+  } else {
     let mut gen = Gen::new(&mut rng, prof);
     gen.allow_any_hash = false;
     gen.allow_paren_key = false;
@@ -272,8 +278,11 @@ fn run(ctx: &mut Ctx, idx: u64) {
               };
               let score = |cg: &GS, cv: &DV| ctx.known_score(&vcore::sig_of(&dir, cg, cv));
               let (sg, sv) = if differs(&g, v) { vcore::shrink_pair(&g, v, 2500, &mut |a, b| differs(a, b), &score) } else { (g.clone(), v.clone()) };
-              let sig = vcore::sig_of(&dir, &sg, &sv);
-              ctx.report(&sig, json!({"schema": st, "document": v.diag(), "permuted": w.diag(), "verdict": base, "verdict_permuted": x, "shrunk_schema": vcore::schema_text(&sg), "shrunk_json": sv.diag()}));
+              // what RFC 8610 says about the shrunk document: a valid map rejected in one order and an
+              // invalid map accepted in one order are different observations
+              let m = vcore::model(&sg, &sv, !cbor);
+              let sig = vcore::sig_of(&format!("{}/{}", dir, match m { Tri::Acc => "valid", Tri::Rej => "invalid", _ => "unspecified" }), &sg, &sv);
+              ctx.report(&sig, json!({"schema": st, "document": v.diag(), "permuted": w.diag(), "verdict": base, "verdict_permuted": x, "shrunk_schema": vcore::schema_text(&sg), "shrunk_json": sv.diag(), "rfc_model_on_shrunk": m.name()}));
               break;
             }
             None => ctx.count("no_verdict_skipped"),
